@@ -680,7 +680,8 @@ impl<'a> G<'a> {
         if f.no_calls > 0 || f.no_ecalls > 0 {
             return self.stmt_def(f);
         }
-        let num = *self.rng.pick(&[1u32, 4, 5, 9, 11, 12, 30, 32, 34, 35, 36, 41, 42]);
+        // every integer-register service of RARS
+        let num = *self.rng.pick(&[1u32, 4, 5, 9, 11, 12, 30, 31, 32, 33, 34, 35, 36, 40, 41, 42, 50, 51, 55, 56, 57, 59, 62, 64, 1024]);
         let (reads, writes, _) = crate::machine::ecall_table(num).expect("table");
         // arguments first (they may use temporaries), a7 last
         for r in reads {
